@@ -190,11 +190,11 @@ int main(int argc, char** argv) {
   vf::Args a(argc, argv);
   for (long i = 0; i < a.cases; ++i) {
     const uint64_t idx = a.only >= 0 ? uint64_t(a.only) : a.gidx(i);
-    // the anisotropic Hill tensor costs ~1 s per call: one case out of 32
-    const uint64_t sub = idx / 32, k = idx % 32;
-    if (k == 31) aniso_case(a, sub);
-    else if (k < 10) spheres_case(a, sub * 10 + k);
-    else mixed_case(a, sub * 21 + (k - 10));
+    // the anisotropic Hill tensor costs ~1 s per call: one case out of 32, spread over the shards
+    const uint64_t k = (idx + idx / 16 + idx / 256) % 32;
+    if (k == 31) aniso_case(a, idx);
+    else if (k < 10) spheres_case(a, idx);
+    else mixed_case(a, idx);
     if (a.only >= 0) break;
   }
   R.finish();
